@@ -89,7 +89,9 @@ NonsymOK(e) ==
   /\ e.scaled_ok                         \* ... and can be scaled
   \* (next to the boundary of K the finite-difference reference for the primal gradient is not meaningful; the
   \*  conjugate map, which needs no reference, still has to close there)
-  /\ \A name \in Required(e.cone) \ (IF e.family = "near_boundary" THEN {"primal_grad_is_derivative"} ELSE {}) : Holds(e, name)
+  /\ \A name \in Required(e.cone) \ (IF e.family = "near_boundary" THEN {"primal_grad_is_derivative"}
+                                      ELSE IF e.family = "near_boundary_dual" THEN {"grad_is_derivative", "hessian_is_derivative", "third_order"}
+                                      ELSE {}) : Holds(e, name)
   /\ e.pd_mode \in {"secant", "fallback"}
   /\ (e.cone = "GenPow") => e.pd_mode = "fallback"
 
